@@ -1,6 +1,6 @@
 (** C19 — property theorems only.  Each is closed by [exact] of a lemma proved in C19_Proofs*.v. *)
 From Coq Require Import ZArith List Reals Sorting.Permutation Sorting.Sorted.
-From LP Require Import Num NumR OrdLaws C19_Model C19_Proofs C19_Proofs_Lists C19_Proofs_Stats C19_Proofs_Overloads C19_Proofs_Session C19_Proofs_Weighted C19_Proofs_Histories C19_Proofs_Partition.
+From LP Require Import Num NumR OrdLaws C19_Model C19_Proofs C19_Proofs_Lists C19_Proofs_Stats C19_Proofs_Overloads C19_Proofs_Session C19_Proofs_Weighted C19_Proofs_Histories C19_Proofs_Partition C19_Proofs_Float C19_Proofs_Cross.
 Import ListNotations.
 
 (** ** Workload_Distribution(workers,tasks): workers+1 non-decreasing indices from 0 to tasks whose
@@ -284,46 +284,24 @@ Proof. exact (log_space_degenerate mn mx steps). Qed.
 Print Assumptions C19_log_space_degenerate.
 
 (** ** Summary statistics under translation, scaling and permutation *)
-Theorem C19_mean_translate (c : R) (l : list R) :
-  l <> [] -> arithmetic_mean ROps (map (fun x => x + c) l) = arithmetic_mean ROps l + c.
-Proof. exact (mean_translate c l). Qed.
-Print Assumptions C19_mean_translate.
 
-Theorem C19_mean_scale (a : R) (l : list R) :
-  arithmetic_mean ROps (map (fun x => a * x) l) = a * arithmetic_mean ROps l.
-Proof. exact (mean_scale a l). Qed.
-Print Assumptions C19_mean_scale.
+(* one theorem per law (each conjunct is one statistic); the median scaling is stated for every real factor (the property asks
+   for a > 0) *)
+Theorem C19_translation_laws (c : R) (l : list R) :
+  (l <> [] -> arithmetic_mean ROps (map (fun x => x + c) l) = arithmetic_mean ROps l + c) /\
+  variance ROps (map (fun x => x + c) l) = variance ROps l /\
+  standard_deviation ROps (map (fun x => x + c) l) = standard_deviation ROps l /\
+  (l <> [] -> median ROps (map (fun x => x + c) l) = median ROps l + c).
+Proof. exact (conj (mean_translate c l) (conj (variance_translate c l) (conj (stddev_translate c l) (median_translate c l)))). Qed.
+Print Assumptions C19_translation_laws.
 
-Theorem C19_variance_translate (c : R) (l : list R) :
-  variance ROps (map (fun x => x + c) l) = variance ROps l.
-Proof. exact (variance_translate c l). Qed.
-Print Assumptions C19_variance_translate.
-
-Theorem C19_variance_scale (a : R) (l : list R) :
-  variance ROps (map (fun x => a * x) l) = a * a * variance ROps l.
-Proof. exact (variance_scale a l). Qed.
-Print Assumptions C19_variance_scale.
-
-Theorem C19_stddev_translate (c : R) (l : list R) :
-  standard_deviation ROps (map (fun x => x + c) l) = standard_deviation ROps l.
-Proof. exact (stddev_translate c l). Qed.
-Print Assumptions C19_stddev_translate.
-
-Theorem C19_stddev_scale (a : R) (l : list R) :
-  standard_deviation ROps (map (fun x => a * x) l) = Rabs a * standard_deviation ROps l.
-Proof. exact (stddev_scale a l). Qed.
-Print Assumptions C19_stddev_scale.
-
-Theorem C19_median_translate (c : R) (l : list R) :
-  l <> [] -> median ROps (map (fun x => x + c) l) = median ROps l + c.
-Proof. exact (median_translate c l). Qed.
-Print Assumptions C19_median_translate.
-
-(* stated for every real factor (the property asks for a > 0) *)
-Theorem C19_median_scale (a : R) (l : list R) :
+Theorem C19_scaling_laws (a : R) (l : list R) :
+  arithmetic_mean ROps (map (fun x => a * x) l) = a * arithmetic_mean ROps l /\
+  variance ROps (map (fun x => a * x) l) = a * a * variance ROps l /\
+  standard_deviation ROps (map (fun x => a * x) l) = Rabs a * standard_deviation ROps l /\
   median ROps (map (fun x => a * x) l) = a * median ROps l.
-Proof. exact (median_scale_all a l). Qed.
-Print Assumptions C19_median_scale.
+Proof. exact (conj (mean_scale a l) (conj (variance_scale a l) (conj (stddev_scale a l) (median_scale_all a l)))). Qed.
+Print Assumptions C19_scaling_laws.
 
 (** the sort the median relies on (specification of std::nth_element's visible effect): sorted, a permutation
     of the input, and a function of the multiset only *)
@@ -340,25 +318,11 @@ Theorem C19_sort_list_perm_invariant (l l' : list R) :
 Proof. exact (sort_list_perm_invariant l l'). Qed.
 Print Assumptions C19_sort_list_perm_invariant.
 
-Theorem C19_mean_perm (l l' : list R) :
-  Permutation l l' -> arithmetic_mean ROps l = arithmetic_mean ROps l'.
-Proof. exact (mean_perm l l'). Qed.
-Print Assumptions C19_mean_perm.
-
-Theorem C19_variance_perm (l l' : list R) :
-  Permutation l l' -> variance ROps l = variance ROps l'.
-Proof. exact (variance_perm l l'). Qed.
-Print Assumptions C19_variance_perm.
-
-Theorem C19_stddev_perm (l l' : list R) :
-  Permutation l l' -> standard_deviation ROps l = standard_deviation ROps l'.
-Proof. exact (stddev_perm l l'). Qed.
-Print Assumptions C19_stddev_perm.
-
-Theorem C19_median_perm (l l' : list R) :
-  Permutation l l' -> median ROps l = median ROps l'.
-Proof. exact (median_perm l l'). Qed.
-Print Assumptions C19_median_perm.
+Theorem C19_permutation_laws (l l' : list R) : Permutation l l' ->
+  arithmetic_mean ROps l = arithmetic_mean ROps l' /\ variance ROps l = variance ROps l' /\
+  standard_deviation ROps l = standard_deviation ROps l' /\ median ROps l = median ROps l'.
+Proof. exact (fun H => conj (mean_perm l l' H) (conj (variance_perm l l' H) (conj (stddev_perm l l' H) (median_perm l l' H)))). Qed.
+Print Assumptions C19_permutation_laws.
 
 (** Median reorders the caller's vector (std::nth_element): a second call on the same vector gives the same value,
     the vector stays a permutation of the data, and so every later statistic of it is unchanged *)
@@ -528,3 +492,102 @@ Theorem C19_session_repeat {Amb Req Out : Type} (answer : Req -> Out) (leaves : 
   nth_error (session answer leaves a rs) i = nth_error (session answer leaves a rs) j.
 Proof. exact (session_repeat answer leaves a rs i j r). Qed.
 Print Assumptions C19_session_repeat.
+
+(** ** Facts about the floating-point instance itself.  The following theorems use no law of order or arithmetic of the number
+    type: they hold for every [NumOps T], hence verbatim for IEEE doubles with NaN, infinities and rounding.
+    "return the requested number of points": *)
+Theorem C19_grid_count_any_number_type {T : Type} (Ops : NumOps T) (mn mx : T) (steps : nat) :
+  length (linear_space Ops mn mx steps) = (if orb (Nat.ltb steps 2) (neqb Ops mn mx) then 1 else steps)%nat /\
+  length (log_space Ops mn mx steps) = (if orb (Nat.ltb steps 2) (neqb Ops mn mx) then 1 else steps)%nat.
+Proof. exact (conj (linear_space_length_any Ops mn mx steps) (log_space_length_any Ops mn mx steps)). Qed.
+Print Assumptions C19_grid_count_any_number_type.
+
+(* the reordering Median leaves is a permutation of the data (also after a second call); the median of an odd number of data is
+   one of the data *)
+Theorem C19_median_any_number_type {T : Type} (Ops : NumOps T) (l : list T) :
+  Permutation (sort_list Ops l) l /\ Permutation (snd (median_twice Ops l)) l /\
+  (Nat.even (length l) = false -> In (median Ops l) l).
+Proof. exact (conj (sort_list_perm_any Ops l) (conj (median_twice_perm_any Ops l) (median_odd_In_any Ops l))). Qed.
+Print Assumptions C19_median_any_number_type.
+
+(* object histories of any length: the vector stays a permutation of the data and every call is answered *)
+Theorem C19_stat_history_any_number_type {T : Type} (Ops : NumOps T) (l : list T) (ops : list stat_op) :
+  Permutation (fst (stat_history Ops l ops)) l /\ length (snd (stat_history Ops l ops)) = length ops.
+Proof. exact (stat_history_any Ops l ops). Qed.
+Print Assumptions C19_stat_history_any_number_type.
+
+(** from the laws of a strict total order alone (doubles without NaN, rounding included): the reordered vector is sorted - all
+    pairs, not only adjacent ones - so Locate_Closest_Location accepts the vector a Median call leaves behind *)
+Theorem C19_sort_list_sorted_ord {T : Type} (Ops : NumOps T) : OrdLaws Ops -> forall l : list T,
+  is_sorted Ops (sort_list Ops l) = true /\
+  forall i j, (i <= j < length l)%nat ->
+    nltb Ops (nth j (sort_list Ops l) (n0 Ops)) (nth i (sort_list Ops l) (n0 Ops)) = false.
+Proof. exact (fun OL l => conj (sort_list_sorted_ord Ops OL l) (sort_list_nth_ord Ops OL l)). Qed.
+Print Assumptions C19_sort_list_sorted_ord.
+
+Theorem C19_closest_after_median_ord {T : Type} (Ops : NumOps T) : OrdLaws Ops -> forall (l : list T) (t : T), l <> [] ->
+  exists i, closest_location Ops (snd (median_state Ops l)) t = Ok i /\ (0 <= i < Z.of_nat (length l))%Z.
+Proof. exact (closest_after_median_ord Ops). Qed.
+Print Assumptions C19_closest_after_median_ord.
+
+(** ** The helpers against each other ("reduce to each other"), over R, for grids and data sets of any size.
+    Arithmetic_Mean and Median of a Linear_Space grid are the mid-point, either orientation; then: *)
+Theorem C19_stats_of_grids_and_combined_lists :
+  (forall (mn mx : R) (steps : nat), (2 <= steps)%nat ->
+     arithmetic_mean ROps (linear_space ROps mn mx steps) = (mn + mx) / 2 /\
+     median ROps (linear_space ROps mn mx steps) = (mn + mx) / 2) /\
+  (* Arithmetic_Mean of Combine_Lists: the size-weighted mean of the means (every pair of lists, x / 0 = 0) *)
+  (forall l1 l2 : list R,
+     arithmetic_mean ROps (combine_lists l1 l2)
+     = (INR (length l1) * arithmetic_mean ROps l1 + INR (length l2) * arithmetic_mean ROps l2)
+       / (INR (length l1) + INR (length l2))) /\
+  (* Variance in Koenig-Huygens form (sum of squares minus N mean^2, over N - 1); zero exactly for constant data *)
+  (forall l : list R,
+     variance ROps l
+     = (Rsum (map (fun x => x * x) l) - INR (length l) * (arithmetic_mean ROps l * arithmetic_mean ROps l))
+       / (INR (length l) - 1)) /\
+  (forall l : list R, (2 <= length l)%nat ->
+     (variance ROps l = 0 <-> forall x, In x l -> x = arithmetic_mean ROps l)).
+Proof.
+  exact (conj (fun mn mx steps H => conj (mean_linear_space mn mx steps H) (median_linear_space mn mx steps H))
+        (conj mean_combine (conj variance_koenig variance_zero_iff))).
+Qed.
+Print Assumptions C19_stats_of_grids_and_combined_lists.
+
+(* Locate_Closest_Location finds a member exactly; on a strictly increasing list the k-th element is found at k; in particular
+   a point of an ascending Linear_Space / Log_Space grid is found at its index, while a descending grid is rejected (exit) *)
+Theorem C19_closest_location_lookup :
+  (forall (l : list R) (t : R), is_sorted ROps l = true -> In t l ->
+     exists i, closest_location ROps l t = Ok i /\ (0 <= i < Z.of_nat (length l))%Z /\ nth (Z.to_nat i) l 0 = t) /\
+  (forall (l : list R) (k : nat),
+     (forall i j, (i < j < length l)%nat -> nth i l 0 < nth j l 0) -> (k < length l)%nat ->
+     closest_location ROps l (nth k l 0) = Ok (Z.of_nat k)) /\
+  (forall (mn mx : R) (steps k : nat), (2 <= steps)%nat -> mn < mx -> (k < steps)%nat ->
+     closest_location ROps (linear_space ROps mn mx steps) (nth k (linear_space ROps mn mx steps) 0) = Ok (Z.of_nat k)) /\
+  (forall (mn mx : R) (steps k : nat), (2 <= steps)%nat -> 0 < mn -> mn < mx -> (k < steps)%nat ->
+     closest_location ROps (log_space ROps mn mx steps) (nth k (log_space ROps mn mx steps) 0) = Ok (Z.of_nat k)) /\
+  (forall (mn mx : R) (steps : nat) (t : R), (2 <= steps)%nat -> mx < mn ->
+     closest_location ROps (linear_space ROps mn mx steps) t = Exit).
+Proof.
+  exact (conj closest_location_member (conj closest_location_strict (conj closest_on_linear_space
+        (conj closest_on_log_space descending_grid_rejected)))).
+Qed.
+Print Assumptions C19_closest_location_lookup.
+
+(** "monotone" for the rounded grid: for every number type whose integer conversion, multiplication by a finite factor of known
+    sign and addition to a finite number are monotone on finite operands ([MonoLaws]; IEEE round-to-nearest doubles are such a
+    type - a fact about IEEE arithmetic, not proved here - and so are the reals), a non-degenerate Linear_Space grid with finite
+    min and finite computed step never goes backwards: non-decreasing when the computed step is >= 0, non-increasing when it is
+    <= 0.  (Strict monotonicity is a theorem only over R, C19_linear_space: in doubles neighbouring points can coincide when
+    the step is below the spacing of the doubles at min.) *)
+Theorem C19_linear_space_monotone_rounded {T : Type} (Ops : NumOps T) (fin : T -> Prop) : MonoLaws Ops fin ->
+  forall (mn mx : T) (steps : nat) (d : T),
+  let step := ndiv Ops (nsub Ops mx mn) (nsub Ops (nofZ Ops (Z.of_nat steps)) (n1 Ops)) in
+  let l := linear_space Ops mn mx steps in
+  orb (Nat.ltb steps 2) (neqb Ops mn mx) = false -> fin mn -> fin step ->
+  (nleb Ops (n0 Ops) step = true ->
+     forall i j, (i <= j < steps)%nat -> nleb Ops (nth i l d) (nth j l d) = true) /\
+  (nleb Ops step (n0 Ops) = true ->
+     forall i j, (i <= j < steps)%nat -> nleb Ops (nth j l d) (nth i l d) = true).
+Proof. exact (linear_space_monotone_rounded Ops fin). Qed.
+Print Assumptions C19_linear_space_monotone_rounded.
